@@ -263,6 +263,87 @@ def hand_decompress(src):
     return out
 
 
+HAND_IMPL_DIRS = ["fuel-tx/src", "fuel-types/src", "fuel-asm/src", "fuel-crypto/src", "fuel-compression/src"]
+
+
+def classify_body(body, what):
+    """the (whitespace-free) body of a hand-written compress_with / decompress_with -> kind; fail closed"""
+    b = re.sub(r"\s+", "", body)
+    if b in ("Ok(*self)", "Ok(self.clone())", "Ok(c)"):
+        return "identity"
+    if b == "Ok(self.bits())":
+        return "bits"
+    if b == "Ok(Self::from_bits_truncate(c))":
+        return "from_bits_truncate"
+    if b == "letmutresult=Vec::with_capacity(self.len());foriteminself{result.push(item.compress_with(ctx).await?);}Ok(result)":
+        return "elementwise"
+    if b == "letmutresult=Vec::with_capacity(c.len());foriteminc{result.push(T::decompress_with(item,ctx).await?);}Ok(result)":
+        return "elementwise"
+    # fixed-size arrays: the MaybeUninit loops, element i -> element i
+    if re.fullmatch(r"letmuttmp:\[MaybeUninit<T::Compressed>;S\]=unsafe\{MaybeUninit::uninit\(\)\.assume_init\(\)\};letmuti=0;whilei<self\.len\(\)\{matchself\[i\]\.compress_with\(ctx\)\.await\{Ok\(value\)=>\{tmp\[i\]\.write\(value\);\}Err\(e\)=>\{.*?returnErr\(e\);\}\}i\+=1;\}letresult=tmp\.map\(\|v\|unsafe\{v\.assume_init\(\)\}\);Ok\(result\)", b):
+        return "elementwise"
+    if re.fullmatch(r"letmuttmp:\[MaybeUninit<T>;S\]=unsafe\{MaybeUninit::uninit\(\)\.assume_init\(\)\};for\(i,c\)inc\.into_iter\(\)\.enumerate\(\)\{matchT::decompress_with\(c,ctx\)\.await\{Ok\(value\)=>\{tmp\[i\]\.write\(value\);\}Err\(e\)=>\{.*?returnErr\(e\);\}\}\}letresult=tmp\.map\(\|v\|unsafe\{v\.assume_init\(\)\}\);Ok\(result\)", b):
+        return "elementwise"
+    raise TranslateError("hand-written %s has a body the translator does not know: %s" % (what, body.strip()[:200]))
+
+
+def hand_impls():
+    """every `impl … CompressibleBy<Ctx>/DecompressibleBy<Ctx> for T` outside the derive macro and outside test code:
+    (type, compress kind, decompress kind)"""
+    found = {}   # type -> {"compress": kind, "decompress": kind}
+    hdr = re.compile(r"impl\s*(?:<[^{}]*?>)?\s*(?:::)?(?:fuel_compression::)?(Compressible|Decompressible)By<Ctx>\s*for\s+(\[T;\s*S\]|[^\s{]+)")
+    for d in HAND_IMPL_DIRS:
+        root = os.path.join(REPO, d)
+        for dp, dns, fns in os.walk(root):
+            dns[:] = [x for x in dns if x != "tests"]
+            for fn in fns:
+                if not fn.endswith(".rs") or fn in ("tests.rs", "traits.rs"):
+                    continue
+                rel = os.path.relpath(os.path.join(dp, fn), REPO)
+                src = strip_comments(read(rel))
+                # the identity_compression! macro: pin its two bodies, then expand its uses
+                mm = re.search(r"macro_rules! identity_compression \{", src)
+                macro_span = (0, 0)
+                if mm:
+                    j = src.index("{", mm.end() - 1)
+                    e = match_close(src, j, "{", "}")
+                    macro_span = (mm.start(), e)
+                    mb = src[j:e]
+                    kinds = []
+                    for fnname in ("compress_with", "decompress_with"):
+                        fm = need(re.search(r"async fn %s\([^)]*\)\s*->\s*Result<Self, Ctx::Error>\s*\{" % fnname, mb), "identity_compression! " + fnname)
+                        bj = mb.index("{", fm.end() - 1)
+                        kinds.append(classify_body(mb[bj + 1:match_close(mb, bj, "{", "}")], "identity_compression!::" + fnname))
+                    for t in re.findall(r"identity_compression!\((\w+)\);", src):
+                        found.setdefault(t, {}).update(compress=kinds[0], decompress=kinds[1])
+                for m in hdr.finditer(src):
+                    if macro_span[0] <= m.start() < macro_span[1]:
+                        continue
+                    direction = "compress" if m.group(1) == "Compressible" else "decompress"
+                    ty = re.sub(r"\s+", "", m.group(2)).split("::")[-1]
+                    if "[T;S]" in re.sub(r"\s+", "", m.group(2)):
+                        ty = "[T;S]"
+                    j = src.index("{", m.end())
+                    e = match_close(src, j, "{", "}")
+                    ib = src[j:e]
+                    fm = need(re.search(r"async fn %s_with\s*\(.*?\)\s*->\s*Result<[^{]*?>\s*\{" % direction, ib, re.S), "%s %s_with in %s" % (ty, direction, rel))
+                    bj = ib.index("{", fm.end() - 1)
+                    kind = classify_body(ib[bj + 1:match_close(ib, bj, "{", "}")], "%s::%s_with (%s)" % (ty, direction, rel))
+                    if direction in found.get(ty, {}):
+                        raise TranslateError("two hand-written %s impls for %s" % (direction, ty))
+                    found.setdefault(ty, {})[direction] = kind
+    out = []
+    for ty in sorted(found):
+        d = found[ty]
+        if "compress" not in d or "decompress" not in d:
+            raise TranslateError("hand-written impl for %s has only one direction: %s" % (ty, d))
+        out.append((ty, d["compress"], d["decompress"]))
+    for must in ["Policies", "PoliciesBits", "Bytes", "Vec<T>", "[T;S]", "u64", "u16", "Bytes32", "BlockHeight", "Nonce", "Salt", "BlobId"]:
+        if must not in found:
+            raise TranslateError("expected a hand-written compression impl for %s" % must)
+    return out
+
+
 def lean_str(s):
     return '"' + s.replace("\\", "\\\\").replace('"', '\\"') + '"'
 
@@ -320,6 +401,7 @@ def main():
     if sorted(reg) != sorted(set(reg)) or len(reg) < 5:
         raise TranslateError("registry-compressed types: %s" % reg)
 
+    hi = hand_impls()
     L = ["/- GENERATED by tools/gen/fields.py from fuel-tx/src/transaction/types/**, fuel-tx/src/tests/da_compression.rs,",
          "   fuel-compression/src/key.rs — do not edit -/", "namespace FuelVerif.Gen.Fields", "",
          "/-- (owner = struct or Enum::Variant, field, compress(skip), canonical(skip), declared type) in declaration order -/",
@@ -338,6 +420,9 @@ def main():
           "def registryFields : List (String × String × String) := [" + ", ".join("(%s, %s, %s)" % (lean_str(o), lean_str(f), lean_str("PredicateCode" if ty == "Specification::Predicate" else ty)) for o, f, sk, ck, ty in rows if ty in reg or ty == "Specification::Predicate") + "]", "",
           "/-- fields of type `UtxoId` (compressed through the context to a `CompressedUtxoId`) -/",
           "def utxoFields : List (String × String) := [" + ", ".join("(%s, %s)" % (lean_str(o), lean_str(f)) for o, f, sk, ck, ty in rows if ty == "UtxoId") + "]", "",
+          "/-- every hand-written (not derived, not test) `CompressibleBy`/`DecompressibleBy` impl pair in fuel-tx, fuel-types,",
+          "    fuel-compression: (type, kind of compress_with, kind of decompress_with); bodies are pinned by the translator -/",
+          "def handImpls : List (String × String × String) := [" + ", ".join("(%s, %s, %s)" % (lean_str(t), lean_str(a), lean_str(b)) for t, a, b in hi) + "]", "",
           "/-- `RegistryKey::SIZE` in bytes; DEFAULT_VALUE = all bits set, ZERO = 0, `next` wraps to ZERO just below DEFAULT_VALUE -/",
           "def registryKeySize : Nat := %d" % size, "", "end FuelVerif.Gen.Fields", ""]
     ch = write_if_changed("Fields.lean", "\n".join(L))
@@ -353,7 +438,7 @@ def main():
     old = open(hp).read() if os.path.exists(hp) else None
     if old != "\n".join(R):
         open(hp, "w").write("\n".join(R))
-    print("fields: %d fields of %d owners, %d zeroed, %d hand-written sources, registry types %s%s" % (len(rows), len(owners), len(zeroed), len(hand), reg, " (changed)" if ch else ""))
+    print("fields: %d fields of %d owners, %d zeroed, %d hand-written sources, %d hand-written impl pairs, registry types %s%s" % (len(rows), len(owners), len(zeroed), len(hand), len(hi), reg, " (changed)" if ch else ""))
 
 
 if __name__ == "__main__":
